@@ -33,17 +33,43 @@ func GenC01(seed uint64, i int) *world.Case {
 	return runScanCase("C01", s, sp, cfg)
 }
 
+var smallSpecs []*spec.Spec
+
 // C01 — programs yield exactly the prescribed rows.
 func C01(tier string, seed uint64) int {
+	// Bounded-exhaustive smoke set: every program of one source and up to two
+	// operators over two key types, three sizes around the vector size and two shard counts.
+	smallSpecs = gen.SmallSpecs([]string{"int", "string"}, []int{0, 1, 129}, []int{1, 3}, 2)
+	smallRule := "one source (const/readerfunc) x key type {int,string} x rows {0,1,129} x shards {1,3}, followed by every sequence of <= 2 applicable operators"
+	if tier == "quick" {
+		// The quick tier runs every fourth program of the enumeration.
+		var sub []*spec.Spec
+		for i := 0; i < len(smallSpecs); i += 4 {
+			sub = append(sub, smallSpecs[i])
+		}
+		smallSpecs = sub
+		smallRule = "every fourth program of: " + smallRule
+	}
 	b := &Batch{
 		Property: "C01", Tier: tier, Seed: seed, Level: "exploration",
 		Rule: "seeded grammar-generated operator DAGs (sources const/readerfunc/scanreader; map/filter/flatmap/fold/head/reduce/cogroup/reshuffle/repartition/reshard/prefixed/scan/writerfunc) executed failure-free on the local or simulated-cluster executor under seeded virtual delays; distinct = distinct (ordered seam-event sequence, per-step result digest) pairs; non-trivial = the run executed at least one task",
-		Gen: func(i int) *world.Case { return GenC01(seed, i) },
+		Gen: func(i int) *world.Case {
+			if i < len(smallSpecs) {
+				s := seedFor(seed, "C01-small", i)
+				cfg := gen.Config(gen.New(s), "")
+				cfg.Chunk, cfg.SortCanary = 0, 0
+				return runScanCase("C01", s, smallSpecs[i], cfg)
+			}
+			return GenC01(seed, i-len(smallSpecs))
+		},
+		ExtraEvidence: func() map[string]any {
+			return map[string]any{"bounded_exhaustive_programs": len(smallSpecs), "bounded_exhaustive_rule": smallRule}
+		},
 	}
 	if tier == "quick" {
-		b.N = 1500
+		b.N = len(smallSpecs) + 1200
 	} else {
-		b.N = 4000
+		b.N = len(smallSpecs) + 4000
 		b.Budget = 25 * time.Minute
 	}
 	return b.Run()
